@@ -94,6 +94,40 @@ pub fn triple_case(c: usize, h: usize, w: usize, max: usize) -> Case {
     }
 }
 
+/// large tensors (thousands of elements, non-square maps): flatten, read-out, vector round trip, one 3-D target
+pub fn big_case(c: usize, h: usize, w: usize) -> Case {
+    Case {
+        id: format!("C14/big/{}x{}x{}", c, h, w),
+        property: "C14",
+        family: "Tensor::{flatten,get_flat,get_triple,reshape}",
+        class: "big".into(),
+        no_ties: false,
+        max_paths: 4,
+        run: Box::new(move |ctx| {
+            let x = v3(ctx, "x", c, h, w);
+            let seq = flat3(&x);
+            let n = c * h * w;
+            let t = t3(&x);
+            let f = t.flatten();
+            shape_ok(ctx, "flatten-shape", &f, &[n]);
+            same_seq(ctx, "flatten", &elems(&f), &seq);
+            same_seq(ctx, "get_flat", &t.get_flat(), &seq);
+            let r = t.clone().reshape(Shape::Single(n));
+            shape_ok(ctx, "reshape-to-single-shape", &r, &[n]);
+            same_seq(ctx, "reshape-to-single", &elems(&r), &seq);
+            let back = r.reshape(Shape::Triple(c, h, w));
+            shape_ok(ctx, "there-and-back-shape", &back, &[c, h, w]);
+            same_seq(ctx, "there-and-back", &elems(&back), &seq);
+            let r2 = t.clone().reshape(Shape::Triple(c, w, h));
+            shape_ok(ctx, "reshape-hw-swapped-shape", &r2, &[c, w, h]);
+            same_seq(ctx, "reshape-hw-swapped", &elems(&r2), &seq);
+            let src = t.clone();
+            let res = ctx.catch(move |_| src.reshape(Shape::Triple(c, h, w + 1)));
+            ctx.fact("reshape-to-more-elements-refused", res.is_err(), String::new());
+        }),
+    }
+}
+
 pub fn single_case(n: usize, max: usize) -> Case {
     Case {
         id: format!("C14/single/{}", n),
@@ -160,6 +194,10 @@ pub fn cases(tier: Tier, _seed: u64) -> Vec<Case> {
     let flats: Vec<usize> = if tier == Tier::Thorough { (1..=64).collect() } else { vec![1, 2, 3, 4, 6, 8, 9, 12, 16, 18, 27, 5, 7] };
     for n in flats {
         out.push(single_case(n, max));
+    }
+    // beyond the small lattice: thousands of elements, height != width in both directions
+    for (c, h, w) in if tier == Tier::Thorough { vec![(2usize, 32usize, 64usize), (2, 64, 32), (1, 70, 65), (3, 40, 41)] } else { vec![(2, 32, 64), (2, 64, 32)] } {
+        out.push(big_case(c, h, w));
     }
     out.push(control_case());
     out
